@@ -25,6 +25,9 @@ COMPONENTS = {"real": ["flowpaths models, SolverWrapper", "HiGHS (threads=1), in
 ASSUMPTIONS = ["alternative optima are vertices HiGHS itself returns for the model with the objective fixed at z*",
                "noise stays within the 1e-9 tolerances the library configures"]
 TAG = "c01"
+# witness of the listed known finding C01.not_exactly_k (one-node routes through an isolated node dropped as "empty")
+import json as _json
+PINNED = [_json.loads('{"sim": {"faults": [], "latency": "instant", "reply": "canonical", "reply_seed": 566380545}, "world": {"args": {"k": 3, "optimization_options": {}, "solver_options": {}, "weight_type": "float"}, "class": "kLeastAbsErrors", "graph": {"edges": [["A", "g", 0.9400000000000004], ["s", "g", 4.25]], "isolated": "iso", "kind": "dag", "nodes": ["A", "s", "g", "iso"], "routes": [["A", "g"], ["s", "g"], ["A", "g"]], "weights": [1.57, 6.25, 1.37]}}}')]
 
 
 def gen_world(seed, tier):
